@@ -18,7 +18,7 @@ class C17(Check):
             "configuration and seed must reproduce the reference generation by generation (fingerprints of X, F, G and of the optimum), also when the run itself uses the "
             "default termination; (3) minimize must end in the reference's last population; (4) ask-and-tell with the offspring evaluated outside the algorithm one by one "
             "other problems driven through ask-and-tell / minimize(copy_algorithm=False) on algorithm objects that share the default operator instances; in shuffled order, and in batches, must reproduce the reference; (5) __dict__ of the shared default operator instances is compared before/after; "
-            "in addition one run per case is compared with the Coq model step by step (as in C06-C08); non-trivial = at least 3 generations compared; distinct by hash")
+            "(6) the run repeated while numpy.empty / empty_like return arrays pre-filled with small in-range integers / 0.5 must reproduce the reference (nothing may read uninitialised memory); in addition one run per case is compared with the Coq model step by step (as in C06-C08); non-trivial = at least 3 generations compared; distinct by hash")
     ASSUMPTIONS = ["the model is a function of the recorded draws and oracle answers (no hidden state by construction); that the Python objects have no further state "
                    "(module globals, shared default-argument instances, numpy's global generator) is an observation of these paired runs: partial",
                    "numpy.random.seed(seed) determines the draw stream (numpy, trusted)"]
@@ -80,6 +80,11 @@ class C17(Check):
                 alg2.setup(prob2, seed=cfg["seed"], termination=("n_gen", G + 1), verbose=False)
                 orng = random.Random(cfg["wl_seed"] + batch)
                 out[mode] = runs.drive(alg2, prob2, G, ext=lambda p, inf: runs.external_eval(p, inf, orng, batch))
+        if not dt:
+            # the same run while numpy.empty / empty_like hand out recycled-looking memory (small in-range integers, 0.5 for floats):
+            # nothing may depend on what an uninitialised array happens to contain
+            with JunkEmpty():
+                out["junk-empty"] = runs.fresh_run(cfg, G, dt)[0]
         out["shared_same"] = shared_snapshot() == shared_before
         # the model-level tie of one of these runs
         obs = hist.run_history(cfg)
@@ -100,6 +105,8 @@ class C17(Check):
         for mode in ("one-by-one", "batches"):
             if mode in obs and obs[mode] != ref:
                 return "C17-external-%s: evaluating the offspring outside the algorithm (%s, shuffled) changes the run" % (mode, mode)
+        if "junk-empty" in obs and obs["junk-empty"] != ref:
+            return "C17-uninitialised: the run changes when numpy.empty returns arrays with other (in-range) contents: something reads uninitialised memory"
         if not obs["shared_same"]:
             return "C17-shared-state: a shared default operator instance was modified by a run"
         return None
@@ -112,6 +119,31 @@ class C17(Check):
 
     def classes(self, cfg, obs):
         return [cfg["alg"], "default-termination" if cfg["default_termination"] else "n_gen"] + ["after-" + w for w in obs["workloads"]]
+
+
+class JunkEmpty:
+    """numpy.empty / numpy.empty_like return arrays whose numeric contents look like recycled heap memory"""
+
+    def __enter__(self):
+        self.e, self.el = np.empty, np.empty_like
+
+        def fill(a):
+            if a.dtype.kind in "iu":
+                a[...] = 1
+            elif a.dtype.kind == "f":
+                a[...] = 0.5
+            elif a.dtype.kind == "b":
+                a[...] = True
+            return a
+
+        def empty(*a, **k): return fill(self.e(*a, **k))
+        def empty_like(*a, **k): return fill(self.el(*a, **k))
+        np.empty, np.empty_like = empty, empty_like
+        return self
+
+    def __exit__(self, *a):
+        np.empty, np.empty_like = self.e, self.el
+        return False
 
 
 def shared_snapshot():
